@@ -104,6 +104,8 @@ def one(ctx: Ctx, cs, pname, over, core=True):
             opts['to_measure'] = b
         out, err = kpx.dumps(d, **opts)
         c2 = dict(case, from_measure=a, to_measure=b)
+        # the same range through one ExportOptions object reused for every document and range of the run
+        kpx.shared_options_check(ctx, d, opts, out, err, c2)
         lo = a if a else 1
         hi = b if b is not None else M
         if err is not None:
@@ -156,6 +158,7 @@ def one(ctx: Ctx, cs, pname, over, core=True):
         if b is not None:
             opts['to_measure'] = b
         out, err = kpx.dumps(d, **opts)
+        kpx.shared_options_check(ctx, d, opts, out, err, dict(case, from_measure=a, to_measure=b))
         if err is None:
             ctx.violation('invalid-range-accepted', f'from_measure={a} to_measure={b} with M={M} did not raise (returned {len(out)} chars)',
                           dict(case, from_measure=a, to_measure=b))
